@@ -18,6 +18,16 @@ Oracle in every state reached by generate(n) from position k0:
   * Fd = 0 => every sample equals the constructor's sample; |h| <= sqrt(L).
 In every state reached by skip(n): get_samples() is unchanged.
 A state in which a request raised is a terminal (failed) state.
+
+Bounds.  Events: generate n in {1,2,3,7,100}, skip n in {1,5,1e6,1e7+3,1e9,1e10}.
+Configurations: Fd {0,.4,5,100} x Ts {1,1e-3,3.25e-8,1e-9} with Fd*Ts <= 0.5 (14) x
+L {1,8} x shape {None,3,(2,3)} = 84.  quick: every history of depth <= 3 for all 84.
+thorough: depth <= 5 for shape None (28), depth <= 4 for the array shapes (56), and
+depth <= 3 with the additional event generate(1e5) for shape None (28).
+
+Known on the unchanged tree (genuine defect, signature
+generate_more_samples|ValueError_time_vector_has_n+1_entries|position>=1e6):
+np.arange(t0, t0+n*Ts, Ts*1.0000000001) has n+1 entries once t0/Ts >~ 2e6.
 """
 import math
 
